@@ -39,7 +39,7 @@ KERNEL_MAXLEN = 4000
 TRUSTED_BASE = ["lib/scheme_ref.py: reference interpreter written from R7RS (an oracle used to classify outputs, not a proof)"]
 
 MANIFEST = dict(
-    text="Coq theorems (coq/Props/C02.v): compile-time resolution of a name in a lambda built from its enclosing lambda — own parameter first, then internal definition, then the enclosing lambda's lexical binding, else global (binding_location over EnvironmentMap::new_from_iof, all argument lists); run-time: closure environment slots are pointers to the creating activation's locations, loads/stores go through exactly one location, an assignment through one name is visible through every name of the same location; ENTER allocates the activation's environment at a heap address that was free (fresh id, every existing environment unchanged at a different address: separate activations get separate locations), a store rewrites exactly one slot of one environment and nothing else, RET leaves heap and environments untouched (a binding outlives its creator: every closure still reads the same slots), and flatness of locations (no LexPtr chains): an invariant finv (no LexPtr value in any heap cell, global slot, vector payload, bytecode operand or saved continuation stack; no MOV destination is a raw pointer) holds initially and is preserved by EVERY instruction of run_one on the success and on the error path (CALL/TCALL of lambdas, closures and continuations unconditionally; builtins under an explicit hypothesis that is proved for apply, call/cc, error, display and write), hence over run_loop/run_count by induction on fuel, and C02_locations_flat holds in every state so reached. OPEN: that the compiler emits bytecode satisfying the operand condition (hypotheses on eval/prepare_eval) and the per-builtin hypothesis for the value-level builtins; the statement over ALL states is refuted by an unreachable hand-made state and kept visible. Tie: exhaustive/random scope skeletons, three-way differential + independent reference interpreter as oracle.",
+    text="Coq theorems (coq/Props/C02.v): compile-time resolution of a name in a lambda built from its enclosing lambda — own parameter first, then internal definition, then the enclosing lambda's lexical binding, else global (binding_location over EnvironmentMap::new_from_iof, all argument lists); run-time: closure environment slots are pointers to the creating activation's locations, loads/stores go through exactly one location, an assignment through one name is visible through every name of the same location; ENTER allocates the activation's environment at a heap address that was free (fresh id, every existing environment unchanged at a different address: separate activations get separate locations), a store rewrites exactly one slot of one environment and nothing else, RET leaves heap and environments untouched (a binding outlives its creator: every closure still reads the same slots), and flatness of locations (no LexPtr chains): an invariant finv (no LexPtr value in any heap cell, global slot, vector payload, bytecode operand or saved continuation stack; no MOV destination is a raw pointer) holds initially and is preserved by EVERY instruction of run_one on the success and on the error path (all of CALL/TCALL, every builtin of the real table - lists, vectors, numbers, strings, symbols, apply, call/cc, eval - proved), the compiler emits only bytecode satisfying the operand condition from any datum (by induction on the compiler's fuel, one lemma per syntactic form), prepare_eval and boot preserve the invariant, hence C02_locations_flat holds UNCONDITIONALLY in every state reachable from the booted machine by any sequence of evaluations (by preservation; the boot is never evaluated in a proof). The statement over ALL states is refuted by an unreachable hand-made state and kept visible. Tie: exhaustive/random scope skeletons, three-way differential + independent reference interpreter as oracle.",
     design="DESIGN.md section 5 C02",
     note="The reference interpreter is an ORACLE for classifying the implementation's output, not a proof. The "
          "enumeration is exhaustive only within the stated caps (reduced skeletons, actions/bindings caps, one "
